@@ -321,6 +321,21 @@ func vxParseRaces(text string) (pairs [][2]string, fatal []string) {
 							top += " (called from " + vxClosureSuffix.ReplaceAllString(c, "") + ")"
 							break
 						}
+						// ... and with the activity it runs in (outermost fan2go frame of the goroutine: a controller's Run,
+						// a metrics collector, an API handler): the same helper state touched from a new activity is a new site
+						root := ""
+						for _, l2 := range lines[li+1:] {
+							if m2 := vxRaceFrame.FindStringSubmatch(l2); m2 != nil {
+								c := strings.TrimPrefix(m2[1], "github.com/markusressel/fan2go/")
+								if strings.Contains(c, "/verifshim/") || strings.Contains(c, ".vx") || strings.Contains(c, ".TestVX") {
+									continue
+								}
+								root = vxClosureSuffix.ReplaceAllString(c, "")
+							}
+						}
+						if root != "" {
+							top += " [in " + root + "]"
+						}
 					}
 					break
 				}
